@@ -269,3 +269,48 @@ def eval_subscribed(run, model, rule):
                             % (bad[0][0], bad[0][1], {'none': 'not given', 'member': 'registered there', 'twin': 'a different queue with equal content'}[bad[0][2]], bad[0][5], bad[0][4],
                                len(bad), cases)), obligation=True)
     return True
+
+
+def registry_shrink_sites(model, w):
+    """places in the package that remove from (or replace the contents of) a subscriber list of the fabric, other than the fabric's own clear(): the delivery threads iterate
+    those lists without the subscription lock, so a list that shrinks in place under a running iteration makes the iterator step over the next subscriber.
+    Returns [(func, node, text)]."""
+    roots = set(w.registry.values())
+    out = []
+    SHRINK = {'remove', 'pop', 'clear', 'insert', 'sort', 'reverse', '__delitem__', 'popitem'}
+    for f in model.all_funcs():
+        if f.owner_class is w.fab and f.name in ('clear', '__init__'):
+            continue
+        tainted = set()
+
+        def is_reg(e, depth=3):
+            """e denotes a registry dict or one of its lists"""
+            while isinstance(e, (ast.Subscript,)):
+                e = e.value
+            if isinstance(e, ast.Call) and isinstance(e.func, ast.Attribute) and e.func.attr in ('values', 'items', 'get', 'setdefault'):
+                return is_reg(e.func.value, depth)
+            if isinstance(e, ast.Attribute) and e.attr in roots:
+                return True
+            if isinstance(e, ast.Name) and e.id in tainted:
+                return True
+            return False
+        for _ in range(3):
+            for n in ast.walk(f.node):
+                if isinstance(n, ast.For) and is_reg(n.iter):
+                    for x in ast.walk(n.target):
+                        if isinstance(x, ast.Name):
+                            tainted.add(x.id)
+                elif isinstance(n, ast.Assign) and is_reg(n.value):
+                    for t in n.targets:
+                        if isinstance(t, ast.Name):
+                            tainted.add(t.id)
+        for n in ast.walk(f.node):
+            if isinstance(n, ast.Call) and isinstance(n.func, ast.Attribute) and n.func.attr in SHRINK and is_reg(n.func.value):
+                out.append((f, n, norm(n)))
+            elif isinstance(n, ast.Delete) and any(is_reg(t) for t in n.targets):
+                out.append((f, n, norm(n)))
+            elif isinstance(n, (ast.Assign, ast.AugAssign)):
+                for t in (n.targets if isinstance(n, ast.Assign) else [n.target]):
+                    if isinstance(t, ast.Subscript) and isinstance(t.slice, ast.Slice) and is_reg(t.value):
+                        out.append((f, n, norm(n)))
+    return out
